@@ -94,6 +94,7 @@ def run(tier, seed, replay):
     C.log("extracted step structures: %s" % {" ".join(k): v for k, v in structures.items()})
     # 2. all interleavings of N readers with exactly that step structure
     nreaders = 3 if tier == "thorough" else 3
+    model_cex = []
     for i, (steps, labels) in enumerate(sorted(structures.items())):
         mod = "MC_C13_gen%d" % i
         with open(os.path.join(d, mod + ".tla"), "w") as f:
@@ -115,9 +116,11 @@ def run(tier, seed, replay):
         if other:
             raise C.ToolError("MC_C13 failed: %s (log %s)" % (other[:3], mc.log))
         if viol:
+            # the model has no lock steps (an uncontended mutex makes no system call): a counterexample is a VIOLATION only
+            # when the real execution below reproduces wrong bytes; otherwise it is reported as an observation
             trace = [l.rstrip() for l in open(mc.log) if l.startswith(("State ", "/\\ "))][:80]
-            run.failure({"clause": "interleaving", "steps": list(steps), "calls": labels,
-                         "syscalls": raw[labels[0]], "tlc_counterexample": trace})
+            model_cex.append({"clause": "interleaving", "steps": list(steps), "calls": labels,
+                              "syscalls": raw[labels[0]], "tlc_counterexample": trace})
         run.samples.append({"call": labels, "steps": list(steps), "syscalls": raw[labels[0]][:6],
                             "interleavings_states": mc.distinct})
     # 3. stress run on the real code, every result validated
@@ -129,6 +132,15 @@ def run(tier, seed, replay):
     for (line, fl) in v.fails:
         key = (fl["clauses"][0], fl["ev"].get("mode") or fl["ev"].get("src"))
         bad.setdefault(key, []).append(fl)
+    own_bytes_failed = any(clause == "own_bytes" for (clause, where) in bad)
+    for cex in model_cex:
+        if own_bytes_failed:
+            cex["confirmed_by_real_execution"] = True
+            run.failure(cex)
+        else:
+            run.observation("interleaving_model_counterexample_not_reproduced",
+                            {"steps": cex["steps"], "note": "the extracted step sequence is unsafe without mutual exclusion; the real "
+                             "execution returned the right bytes in every call (a lock the system-call trace cannot see?)"})
     for (clause, where), fls in bad.items():
         if str(where).endswith("_http"):
             # C13 speaks of FILE-backed readers; the HTTP data reader is exercised as well, its failures are observations
